@@ -1,4 +1,4 @@
-(* The retry decorator (retrying.retry(**_retry_args)) and a filesystem whose calls fail
+(* The retry decorator (retrying.retry with the _retry_args) and a filesystem whose calls fail
    according to a fault schedule; pack_partitions_to_parquet over them ([packF]).
    Executable only; no proofs.
 
